@@ -120,9 +120,9 @@ def run(ctx):
     ctx.verdicts(verdicts, {t["id"]: t for t in traces}, SITE, classify=classify)
     ctx.extra.setdefault("trace_runs", []).append(dict(spec="BootstrapTrace", traces=len(traces), **st))
     # second line of defence, independent of how indices are drawn: on tiny training sets with many estimators the
-    # union of the rows seen must be all rows (miss probability < 1e-19 for a correct implementation)
+    # union of the rows seen must be all rows (miss probability < 1e-18 for a correct implementation)
     from mlinsights.mlmodel import IntervalRegressor
-    for n in (2, 3):
+    for n in (2, 3, 4, 5, 6, 7, 8):
         del stubs.LOG[:]
         X = numpy.array([[i, 0] for i in range(n)], dtype=numpy.float64)
         numpy.random.seed(ctx.seed + n)
@@ -141,7 +141,7 @@ def run(ctx):
                 "{None,1,2,4}) with numpy.random.randint wrapped and a recording base regressor; every draw/fit/predict is "
                 "an event validated by BootstrapTrace. distinct = distinct configurations+seed; non-trivial = n >= 2." % (N, M))
     ctx.assumptions += ["alpha is dyadic so n*alpha is exact; 'round' is the code's int(x + 0.5) (half up)",
-                        "coverage check on n=2,3 with 64 estimators has false-alarm probability < 1e-19"]
+                        "coverage check on n=2..8 with 64 estimators (64 n draws) has false-alarm probability < 1e-18"]
 
 
 if __name__ == "__main__":
